@@ -32,4 +32,8 @@ def run(rep, fb, tier):
     _lx.rule_whole_token(rep, fb)
     from ..rules import lints as _lz
     _lz.rule_zero_field_depths(rep, fb)
+    from ..rules import lints as _lw
+    _lw.rule_ctor_roles(rep, fb)
+    from ..rules import lints as _lv
+    _lv.rule_call_roles(rep, fb)
     rep.units = fb.units
